@@ -250,7 +250,7 @@ func (db *DB) MultiGetMultiCFWithTS(opts *ReadOptions, cfs ColumnFamilyHandles, 
 
 // Put writes data associated with a key to the database.
 func (db *DB) Put(opts *WriteOptions, key, value []byte) (err error) {
-	return db.write([]wbOp{{t: WriteBatchValueRecord, key: key, value: value, isData: true}})
+	return db.write(opts, []wbOp{{t: WriteBatchValueRecord, key: key, value: value, isData: true}})
 }
 
 // PutWithTS writes data associated with a key and timestamp to the database.
@@ -260,7 +260,7 @@ func (db *DB) PutWithTS(opts *WriteOptions, key, ts, value []byte) (err error) {
 
 // PutCF writes data associated with a key to the database and column family.
 func (db *DB) PutCF(opts *WriteOptions, cf *ColumnFamilyHandle, key, value []byte) (err error) {
-	return db.write([]wbOp{{t: WriteBatchCFValueRecord, cf: cfID(cf), key: key, value: value, isData: true}})
+	return db.write(opts, []wbOp{{t: WriteBatchCFValueRecord, cf: cfID(cf), key: key, value: value, isData: true}})
 }
 
 // PutCFWithTS writes data associated with a key and timestamp to the database and column family.
@@ -270,12 +270,12 @@ func (db *DB) PutCFWithTS(opts *WriteOptions, cf *ColumnFamilyHandle, key, ts, v
 
 // Delete removes the data associated with the key from the database.
 func (db *DB) Delete(opts *WriteOptions, key []byte) (err error) {
-	return db.write([]wbOp{{t: WriteBatchDeletionRecord, key: key, isData: true}})
+	return db.write(opts, []wbOp{{t: WriteBatchDeletionRecord, key: key, isData: true}})
 }
 
 // DeleteCF removes the data associated with the key from the database and column family.
 func (db *DB) DeleteCF(opts *WriteOptions, cf *ColumnFamilyHandle, key []byte) (err error) {
-	return db.write([]wbOp{{t: WriteBatchCFDeletionRecord, cf: cfID(cf), key: key, isData: true}})
+	return db.write(opts, []wbOp{{t: WriteBatchCFDeletionRecord, cf: cfID(cf), key: key, isData: true}})
 }
 
 // DeleteWithTS removes the data associated with the key and timestamp from the database.
@@ -300,7 +300,7 @@ func (db *DB) SingleDeleteCFWithTS(opts *WriteOptions, cf *ColumnFamilyHandle, k
 
 // DeleteRangeCF deletes keys that are between [startKey, endKey)
 func (db *DB) DeleteRangeCF(opts *WriteOptions, cf *ColumnFamilyHandle, startKey []byte, endKey []byte) (err error) {
-	return db.write([]wbOp{{t: WriteBatchCFRangeDeletion, cf: cfID(cf), key: startKey, value: endKey, isData: true}})
+	return db.write(opts, []wbOp{{t: WriteBatchCFRangeDeletion, cf: cfID(cf), key: startKey, value: endKey, isData: true}})
 }
 
 // SingleDelete removes the database entry for "key". Requires that the key exists
@@ -320,7 +320,7 @@ func (db *DB) DeleteRangeCF(opts *WriteOptions, cf *ColumnFamilyHandle, startKey
 //
 // Note: consider setting options.sync = true.
 func (db *DB) SingleDelete(opts *WriteOptions, key []byte) (err error) {
-	return db.write([]wbOp{{t: WriteBatchSingleDeletionRecord, key: key, isData: true}})
+	return db.write(opts, []wbOp{{t: WriteBatchSingleDeletionRecord, key: key, isData: true}})
 }
 
 // SingleDeleteCF removes the database entry for "key". Requires that the key exists
@@ -340,23 +340,23 @@ func (db *DB) SingleDelete(opts *WriteOptions, key []byte) (err error) {
 //
 // Note: consider setting options.sync = true.
 func (db *DB) SingleDeleteCF(opts *WriteOptions, cf *ColumnFamilyHandle, key []byte) (err error) {
-	return db.write([]wbOp{{t: WriteBatchCFSingleDeletionRecord, cf: cfID(cf), key: key, isData: true}})
+	return db.write(opts, []wbOp{{t: WriteBatchCFSingleDeletionRecord, cf: cfID(cf), key: key, isData: true}})
 }
 
 // Merge merges the data associated with the key with the actual data in the database.
 func (db *DB) Merge(opts *WriteOptions, key []byte, value []byte) (err error) {
-	return db.write([]wbOp{{t: WriteBatchMergeRecord, key: key, value: value, isData: true}})
+	return db.write(opts, []wbOp{{t: WriteBatchMergeRecord, key: key, value: value, isData: true}})
 }
 
 // MergeCF merges the data associated with the key with the actual data in the
 // database and column family.
 func (db *DB) MergeCF(opts *WriteOptions, cf *ColumnFamilyHandle, key []byte, value []byte) (err error) {
-	return db.write([]wbOp{{t: WriteBatchCFMergeRecord, cf: cfID(cf), key: key, value: value, isData: true}})
+	return db.write(opts, []wbOp{{t: WriteBatchCFMergeRecord, cf: cfID(cf), key: key, value: value, isData: true}})
 }
 
 // Write a batch to the database.
 func (db *DB) Write(opts *WriteOptions, batch *WriteBatch) (err error) {
-	return db.write(batch.ops)
+	return db.write(opts, batch.ops)
 }
 
 // WriteWI writes a batch wi to the database.
